@@ -256,6 +256,39 @@ def templates(tier="quick"):
     T.append(scenario("manifest_regen/built", "template", [va, vb], files=files, ops=ops, init=[4], depth=d,
                       tags=["generator", "manifest-regen", "built"]))
 
+    # T16c the manifest is up to date itself but has a prerequisite with work to do: ninja runs it in the manifest phase, resets
+    # the graph's state (State::Reset) and scans everything a second time in the same process -- dyndep files still to be
+    # loaded, recorded dependencies still to be looked at
+    from family_cycles import dyndep_text as _ddt
+    def regen3(name, ver):
+        return Variant(name, [Stmt("pre", ex=["p.in"]),
+                              Stmt("build.ninja", ex=["build.ninja.in"], oo=["pre"], generator=True, copy=True),
+                              Stmt("dd", ex=["dd.in"], copy=True), Stmt("x", ex=["s"]),
+                              Stmt("out", ex=["in"], oo=["dd"], dyndep="dd", extra_reads=["x"]),
+                              Stmt("gen.h", ex=["g.in"]), Stmt("obj", ex=["src"], oo=["gen.h"], hidden=["gen.h"], deps="gcc"),
+                              Stmt("top", ex=["out", "obj"], ver=ver)], defaults=["top"])
+    va, vb = regen3("m0", 0), regen3("m1", 1)
+    ops = [{"op": "edit", "path": "p.in", "label": "edit p.in"}, {"op": "edit", "path": "s", "label": "edit s"},
+           {"op": "edit", "path": "g.in", "label": "edit g.in"}, {"op": "touch", "path": "dd.in", "label": "touch dd.in"},
+           {"op": "write", "path": "build.ninja.in", "content": vb.manifest(), "label": "build.ninja.in:=m1"},
+           ninja_op(j=1), ninja_op(j=3)]
+    files = {"build.ninja.in": va.manifest(), "dd.in": _ddt([("out", [], ["x"], False)])}
+    T.append(scenario("manifest_prerequisite_then_second_scan/built", "template", [va, vb], files=files, ops=ops, init=[5], depth=5,
+                      tags=["generator", "manifest-regen", "built", "dyndep", "deps"]))
+
+    # T16d ... and the prerequisite is a statement with recorded dependencies, one of them generated and out of date as well; the
+    # generator (restat) leaves the manifest alone, so the second scan runs on the same graph objects
+    v = Variant("v0", [Stmt("hdr.h", ex=["hdr.src"]), Stmt("cfg.out", ex=["cfg.in"], hidden=["hdr.h"], deps="gcc"),
+                       Stmt("build.ninja", ex=["build.ninja.in"], im=["cfg.out"], generator=True, restat=True, copy=True)],
+                defaults=["cfg.out", "hdr.h"])
+    ops = [{"op": "edit", "path": "cfg.in", "label": "edit cfg.in"}, {"op": "edit", "path": "hdr.src", "label": "edit hdr.src"},
+           {"op": "touch", "path": "build.ninja.in", "label": "touch build.ninja.in"}, ninja_op(j=1), ninja_op(j=2)]
+    T.append(scenario("manifest_prerequisite_with_recorded_deps/built", "template", [v], files={"build.ninja.in": v.manifest()}, ops=ops,
+                      init=[3, 3], depth=5, tags=["generator", "manifest-regen", "built", "deps", "only:C01,C02,C03"]))
+    # (only under the final-state / convergence oracles: with the statement dirty for a reason of its own its recorded
+    # dependencies are not loaded in the manifest phase -- F1 -- so it runs there with the old header and once more in the
+    # build proper, which the ordering and at-most-once oracles of C04 / C06 would report as F1 in another guise)
+
     # T16b a manifest written in parts: the generator (restat, as generators that only touch what changes are) writes build.ninja
     # and the file it pulls in with `subninja`; the two variants differ only in the included file, so a regeneration leaves
     # build.ninja itself alone
